@@ -28,6 +28,7 @@ thread_local! { static LAST_LOC: RefCell<(String, u32)> = RefCell::new((String::
 pub fn install_panic_hook() {
     std::panic::set_hook(Box::new(|info| {
         let loc = info.location().map(|l| (l.file().to_string(), l.line())).unwrap_or_default();
+        if std::env::var("VERIF_DEBUG").is_ok() { eprintln!("PANIC at {}:{}", loc.0, loc.1); }
         LAST_LOC.with(|c| *c.borrow_mut() = loc);
     }));
 }
